@@ -346,7 +346,7 @@ pub proof fn lemma_transitive(a: Value, b: Value, c: Value)
 
 SPEC = r"""
     ensures
-        cmp_of(r) == veq(*lhs, *rhs), // [C10:structural_equality_depends_only_on_shape_and_contents_and_a_type_mismatch_inside_is_an_error_naming_both_types_in_operand_order]
+        cmp_of(r) == veq(*lhs, *rhs), // [C10_C16:structural_equality_depends_only_on_shape_and_contents_and_a_type_mismatch_inside_is_an_error_naming_both_types_in_operand_order]
 """
 OP_TEXT = r"""
 // the source symbol of every binary operator (the property's operator list)
